@@ -19,6 +19,7 @@ import RbModel.Lemmas.ClusterRelabel
 import RbModel.Lemmas.Hangul
 import RbModel.Props.C17
 import RbModel.Lemmas.MorxRelabel
+import RbModel.Lemmas.Trak
 
 namespace RbModel.Buf
 
@@ -300,3 +301,63 @@ theorem C15_relabel_noncontextual (f : Nat → Nat) (lk : Lookup) (rf rf' : Arra
   simp [relabel, this]
 
 end RbModel.Morx
+
+namespace RbModel.Trak
+open RbModel.Pipeline
+
+/-- **C15_trak_opaque.** AAT tracking (`aat_layout_trak_table.rs::apply`, model `trackAll`) never looks at a cluster
+    value: for every tracking amount, both axes, every buffer and EVERY replacement of the cluster values (any function
+    of the slot — not even monotone), tracking the relabelled buffer gives the relabelled result; advances, offsets,
+    continuation bits and masks are the same. -/
+theorem C15_trak_opaque (t : Int) (hor : Bool) (f : G → Nat) (l : List S)
+    (hf : ∀ g, f (bump t hor g) = f g) :
+    trackAll t hor (l.map (reC f)) = (trackAll t hor l).map (reC f) := by
+  rw [trackAll_flat, trackAll_flat]
+  have h1 : ∀ s : S, first t hor (reC f s) = reC f (first t hor s) := by
+    intro s
+    unfold first reC
+    by_cases h : s.2 = true
+    · simp only [h, if_true]
+      rw [bump_reC, hf]
+    · simp [h]
+  cases l with
+  | nil => rfl
+  | cons s tl =>
+    simp only [flat, List.map_cons, List.map_map, h1]
+    congr 1
+    apply List.map_congr_left
+    intro x _
+    simp only [Function.comp]
+    by_cases hc : x.1.cont = true
+    · have : (reC f x).1.cont = true := hc
+      simp [hc, this]
+    · have : ¬ (reC f x).1.cont = true := hc
+      simp [hc, this, h1]
+
+/-- **C15_trak_levels.** The three cluster levels differ, when tracking runs, only in the cluster values `form_clusters`
+    left in the buffer; the positions tracking produces are therefore the same at every level: for every text, scratch
+    state, mask assignment, amount and axis, the tracked buffers of two configurations agree once clusters are erased. -/
+theorem C15_trak_levels (t : Int) (hor : Bool) (c c' : Cfg) (l : List G) (s : Scratch) (masks : List Bool) :
+    (trackAll t hor ((formClusters c l s).zip masks)).map (reC fun _ => 0) =
+    (trackAll t hor ((formClusters c' l s).zip masks)).map (reC fun _ => 0) := by
+  rw [← C15_trak_opaque t hor (fun _ => 0) _ (fun _ => rfl), ← C15_trak_opaque t hor (fun _ => 0) _ (fun _ => rfl)]
+  congr 1
+  have key : ∀ a : List G, (a.zip masks).map (reC fun _ => 0) = (a.map eC).zip masks := by
+    intro a
+    induction a generalizing masks with
+    | nil => simp
+    | cons g tl ih =>
+      cases masks with
+      | nil => simp
+      | cons m ms => simp [reC, eC, ih]
+  rw [key, key, formClusters_eC, formClusters_eC]
+
+/-- tracking does something: a regional-indicator pair (the second slot is a continuation) between two letters, all with the
+    `trak` bit on, amount -157 on the horizontal axis: three group starts are moved, the continuation is not. -/
+example : (trackAll (-157) true
+    [({ cluster := 0, xa := 1000 }, true), ({ cluster := 1, xa := 1000 }, true),
+     ({ cluster := 2, xa := 1000, props := { cont := true } }, true), ({ cluster := 3, xa := 1000 }, true)]).map
+      (fun s => (s.1.xa, s.1.xo)) = [(843, -78), (843, -78), (1000, 0), (843, -78)] := by decide
+
+end RbModel.Trak
+
